@@ -30,9 +30,11 @@ def gen_aggr(rnd, idx, force_bound=None, used=None):
         label = prev[0] if prev and rnd.random() < 0.5 else pool[idx]
     flt = None
     dlabel = None
-    if form != 'entity' and rnd.random() < 0.3:
-        dlabel = ['X', 'Y'][idx]
-        flt = (rnd.choice(['greater than', 'less than', 'different from', 'at least', 'at most']), rnd.randint(1, 3))
+    if form != 'entity' and rnd.random() < 0.4:
+        # the author's name for the counted value; sometimes one the compiler would invent itself (D, D1, WGHT ...)
+        dlabel = ['X', 'Y'][idx] if rnd.random() < 0.6 else [['D', 'WGHT', 'HST_D1'], ['D1', 'WGHT1', 'D2']][idx][rnd.randrange(3)]
+        if rnd.random() < 0.75:
+            flt = (rnd.choice(['greater than', 'less than', 'different from', 'at least', 'at most']), rnd.randint(1, 3))
     return dict(fn=fn, form=form, side=side if bound else None, label=label, dlabel=dlabel, filter=flt)
 
 
